@@ -81,6 +81,8 @@ GENERATORS = [
      "Derive.lean"),
     ("gen_derive_ties", ("miniconf_derive/src/tree.rs", "miniconf_derive/src/field.rs", os.path.join(HARNESS, "src", "gen_types.rs")),
      os.path.join("..", "Lemmas", "GenTieDerive.lean")),
+    ("gen_derive_vties", ("miniconf_derive/src/tree.rs", "miniconf_derive/src/field.rs", os.path.join(HARNESS, "src", "gen_types.rs")),
+     os.path.join("..", "Lemmas", "GenTieDeriveValue.lean")),
 ]
 
 
